@@ -644,3 +644,16 @@ package core
 //@   ensures [not-low-only-with-room] s.storeStats.rawStats != nil && !result ==> (s.regionCount < 30 && lsAvail(s) > 8589934592) || (lsCap(s) != 0 && real(lsAvail(s)) / real(lsCap(s)) >= 1 - lowSpaceRatio) || (lsCap(s) == 0 && lowSpaceRatio >= 1)
 //@   ensures [low-means-small-share] result ==> s.storeStats.rawStats != nil && (lsCap(s) == 0 || real(lsAvail(s)) / real(lsCap(s)) < 1 - lowSpaceRatio)
 //@   modifies nothing
+
+// MergeLabels (C14: a put-store that fails - rejected by the label check or by a failing storage write - leaves the served
+// record unchanged): the merge works on copies and changes NOTHING that existed before the call - neither the label
+// objects nor the label slice of the (served) store, nor the request's labels. It used to be trusted as side-effect free.
+//@ func (*StoreInfo).MergeLabels
+//@   props C14
+//@   option nosafety
+//@   ensures [result-is-made-of-fresh-labels] forall j :: {result[j]} 0 <= j && j < len(result) ==> result[j] != nil && (forall g *metapb.StoreLabel :: {old(allocated(g))} old(allocated(g)) ==> result[j] != g)
+//@   loop 1 invariant (forall g *metapb.StoreLabel :: {g.Value} old(allocated(g)) ==> g.Value == old(g.Value) && g.Key == old(g.Key)) && forall j :: {storeLabels[j]} 0 <= j && j < len(storeLabels) ==> storeLabels[j] != nil && (forall g *metapb.StoreLabel :: {old(allocated(g))} old(allocated(g)) ==> storeLabels[j] != g)
+//@   loop 2 invariant (forall g *metapb.StoreLabel :: {g.Value} old(allocated(g)) ==> g.Value == old(g.Value) && g.Key == old(g.Key)) && forall j :: {storeLabels[j]} 0 <= j && j < len(storeLabels) ==> storeLabels[j] != nil && (forall g *metapb.StoreLabel :: {old(allocated(g))} old(allocated(g)) ==> storeLabels[j] != g)
+//@   loop 3 invariant (forall g *metapb.StoreLabel :: {g.Value} old(allocated(g)) ==> g.Value == old(g.Value) && g.Key == old(g.Key)) && forall j :: {storeLabels[j]} 0 <= j && j < len(storeLabels) ==> storeLabels[j] != nil && (forall g *metapb.StoreLabel :: {old(allocated(g))} old(allocated(g)) ==> storeLabels[j] != g)
+//@   loop 4 invariant (forall g *metapb.StoreLabel :: {g.Value} old(allocated(g)) ==> g.Value == old(g.Value) && g.Key == old(g.Key)) && (forall j :: {storeLabels[j]} 0 <= j && j < len(storeLabels) ==> storeLabels[j] != nil && (forall g *metapb.StoreLabel :: {old(allocated(g))} old(allocated(g)) ==> storeLabels[j] != g)) && (forall j :: {res[j]} 0 <= j && j < len(res) ==> res[j] != nil && (forall g *metapb.StoreLabel :: {old(allocated(g))} old(allocated(g)) ==> res[j] != g))
+//@   modifies nothing
